@@ -366,7 +366,7 @@ macro_rules! eval_dyn_mentioned {
     };
 }
 
-//@K props=C01,C07 tier=quick label=bnd feat=nostd fn=DynCtx::eval_dyn[mentioned,InAnyOrder] bound=patterns=1 timeout=900
+//@K props=C01,C07 tier=thorough label=bnd feat=nostd fn=DynCtx::eval_dyn[mentioned,InAnyOrder] bound=patterns=1 timeout=1800
 eval_dyn_mentioned!(eval_dyn_mentioned_n1, 1);
 //@K props=C01,C07 tier=thorough label=bnd feat=nostd fn=DynCtx::eval_dyn[mentioned,InAnyOrder] bound=patterns=2 timeout=1800
 eval_dyn_mentioned!(eval_dyn_mentioned_n2, 2);
